@@ -39,7 +39,7 @@ func init() {
 		ID: "C05", Level: "exploration",
 		Rule:        "seeded histories (autocommit writes/deletes, transactions committed, rolled back and left open) cut into segments by Close+Open, run in four process configurations: (a) one process, one database; (b) segment 0 in a previous process, the rest in a fresh process that opens another, fresh database first (low global sequence counter, high persisted sequences); (c) two populated databases interleaved in one process; (d) every segment in its own fresh process. After every step and after every reopen all keys and GetKeys are probed against the reference model (reopen = open transactions vanish, nothing else changes); after the last reopen every key is overwritten, probed, the database reopened twice (same and new process) and probed again. evaluations = calls compared; distinct_nontrivial = distinct (configuration, history) pairs that completed with >=2 reopens and overwrites after a reopen",
 		Assumptions: []string{"reference model refmodel"},
-		Roles:       map[string]Role{"main": {N: func(t string) int { return tierN(t, 48, 800) }, Case: c05Case, Batch: 1}},
+		Roles:       map[string]Role{"main": {N: func(t string) int { return tierN(t, 48, 3200) }, Case: c05Case, Batch: 1}},
 	})
 }
 
